@@ -28,7 +28,8 @@ def canon(x, depth=0, seen=None):
     if isinstance(x, np.generic):
         return ('npg', str(x.dtype), x.tobytes().hex())
     if isinstance(x, np.ndarray):
-        return ('nd', str(x.dtype), x.shape, x.tobytes().hex() if x.dtype != object else repr(x.tolist()))
+        # the array OBJECT, not only its numbers: an array left write-protected is a changed array
+        return ('nd', str(x.dtype), x.shape, x.tobytes().hex() if x.dtype != object else repr(x.tolist())) + (() if x.flags.writeable else ('read-only',))
     if depth > MAXD:
         return ('deep', type(x).__name__)
     if seen is None:
